@@ -224,7 +224,7 @@ example (M : F64Mod K) (mat : Array Int) (ncols n : ℕ) (P : ℕ → Array Int)
 example (M : F64Mod K) (S2 δ : K) : invBudget M S2 δ = eps K M.k * (S2 + δ) + δ := rfl
 /-- the budget of `vmp_apply_dft_to_dft(d, x, m)` / `vec_znx_idft(d, x)` in a program -/
 example (M : F64Mod K) (d x : DVar) (m : MVar) (a : AState) (β : Bud K) (s : CState ℕ) (δn : ℕ → K) :
-    PreM M vars (.vmpDD d x m) a β s δn ↔ ((∀ i, i < d.size → 0 ≤ δn i) ∧ ∃ P Mv, a.dvec x = some P ∧ a.pmat m = some Mv ∧
+    PreM M vars (.vmpDD d x m) a β s δn ↔ (d ≠ x ∧ (∀ i, i < d.size → 0 ≤ δn i) ∧ ∃ P Mv, a.dvec x = some P ∧ a.pmat m = some Mv ∧
       VmpDDBudget M (matOf M Mv m.nrows m.ncols) m.nrows m.ncols (fun i => polyArr M.N (P.coef i)) (s.dvec x) x.size
         d.size (β x) δn) := Iff.rfl
 example (M : F64Mod K) (d : Var) (x : DVar) (a : AState) (β : Bud K) (s : CState ℕ) (δn : ℕ → K) :
